@@ -169,9 +169,13 @@ func (p *MemTablePool) GetMemTables() []*MemTable {
 	p.mu.RLock()
 	defer p.mu.RUnlock()
 
+	// Newest first: the active table, then the immutable ones from the most
+	// recently switched to the oldest (consumers give earlier sources precedence)
 	result := make([]*MemTable, 0, len(p.immutables)+1)
 	result = append(result, p.active)
-	result = append(result, p.immutables...)
+	for i := len(p.immutables) - 1; i >= 0; i-- {
+		result = append(result, p.immutables[i])
+	}
 	return result
 }
 
